@@ -384,6 +384,22 @@ class RenderContext:
             finally:
                 self.loops.pop()
 
+    @contextmanager
+    def repeat(self, length: int) -> Iterator[RenderContext]:
+        """Count _length_ repetitions of a block towards the loop iteration limit.
+
+        For tags that repeat a block without pushing a `ForLoop` on to the loop
+        stack, like `tablerow` and `include ... for`. Loops nested inside the `with`
+        block multiply by _length_ when they check the loop iteration limit.
+        """
+        self.raise_for_loop_limit(length)
+        carry = self.loop_iteration_carry
+        self.loop_iteration_carry = carry * length
+        try:
+            yield self
+        finally:
+            self.loop_iteration_carry = carry
+
     def parentloop(self) -> Union[Undefined, object]:
         """Return the last ForLoop object from the loop stack."""
         try:
